@@ -411,13 +411,36 @@ func genHistories(r *rng, tier string) (out [][]HOp, tags [][]string) {
 		n = 30000
 	}
 	g := &linGen{r: r}
+	nbig := 0
 	for i := 0; i < n; i++ {
 		g.nextK = 0
 		g.nextV = 0
 		var progs [][]LOp
 		var pre []LOp
 		tag := "random"
-		switch i % 5 {
+		sel := i % 5
+		if i%50 == 49 && nbig < 120 { // at most 120 of them: each costs about a second to check
+			sel = 5
+			nbig++
+		}
+		switch sel {
+		case 5: // a Merge of a LARGE map against single writers of keys it does not contain
+			tag = "big_merge_vs_writers"
+			progs = append(progs, []LOp{g.merge(128 + r.intn(33))})
+			for j := 0; j < 2; j++ {
+				var p []LOp
+				for k := 0; k < 6; k++ {
+					switch r.intn(3) {
+					case 0:
+						p = append(p, LOp{K: "set", Key: j, Val: g.val()}, LOp{K: "get", Key: j})
+					case 1:
+						p = append(p, LOp{K: "set", Key: j, Val: g.val()}, LOp{K: "del", Key: j}, LOp{K: "has", Key: j})
+					default:
+						p = append(p, LOp{K: "set", Key: j, Val: g.val()}, LOp{K: "gint", Key: j})
+					}
+				}
+				progs = append(progs, p)
+			}
 		case 0, 1: // random mixes over a small key space
 			G := 2 + r.intn(5)
 			nkeys := 1 + r.intn(4)
@@ -464,6 +487,14 @@ func genHistories(r *rng, tier string) (out [][]HOp, tags [][]string) {
 		// the process inside them
 		noteProgressAny(linProgressDir, i, map[string]any{"programs": progs, "setup": pre}, []string{"pattern=" + tag, "process ended while these programs ran concurrently"})
 		h := runHistory(progs, pre)
+		if sel == 5 {
+			// the window in which a large Merge can lose a concurrent write is a few microseconds:
+			// run the same programs again (fresh store each time) until a run is not linearizable
+			// (a pre-filter only: the verdict on the recorded history is Coq's) or 40 runs are done
+			for t := 0; t < 40 && linearize(h) != nil; t++ {
+				h = runHistory(progs, pre)
+			}
+		}
 		out = append(out, h)
 		tags = append(tags, []string{"pattern=" + tag, fmt.Sprintf("goroutines=%d", len(progs)), fmt.Sprintf("ops=%d", bucket(len(h)/4)*4)})
 	}
@@ -588,7 +619,7 @@ func linMain(prop, tier string, seed uint64, out, replay string) error {
 	}
 	st.Evaluations = len(cases)
 	st.Extra["histories_with_overlap"] = overlapped
-	st.Scope = "2..6 goroutines x 4..9 operations over 1..4 keys (unique value per Set), Merge maps of 2..40 fresh keys, and three contention patterns: a large Merge against Len / Keys / GetAll observers, Clear of a filled store against observers and writers, writers against snapshots; every operation stamped at invocation and response by one atomic clock; built with the race detector"
+	st.Scope = "2..6 goroutines x 4..9 operations over 1..4 keys (unique value per Set), Merge maps of 2..40 fresh keys, and four contention patterns: a Merge of 128..160 fresh keys against two single writers of other keys (set / get / delete / has in program order), a large Merge against Len / Keys / GetAll observers, Clear of a filled store against observers and writers, writers against snapshots; every operation stamped at invocation and response by one atomic clock; built with the race detector"
 	st.Rule = "seeded programs, schedules by the Go runtime (GOMAXPROCS 16); non-trivial when operations of different goroutines overlap in time; distinct by history hash"
 	n, err := writeShards(out, prop, "Store Lin LinCorr", "lscen", "lobs", "admits_lin", "spec_C13", cases, nil)
 	if err != nil {
